@@ -18,6 +18,10 @@ class KDConcatDataset(ConcatDataset):
         if item == "datasets":
             return getattr(super(), item)
         if item.startswith("getall_"):
+            # balanced_sampling is an endless round-robin over the datasets: like __len__, "all" is not defined
+            # (hasattr is False -> kappadata.utils.getall of e.g. a KDSubset of it loads sample-wise via getitem_)
+            if self.balanced_sampling:
+                raise AttributeError(f"'{type(self).__name__}' object has no attribute '{item}' (balanced_sampling)")
             # all methods starting with getall_ have to concatenate the result of dataset.getall_... for all datasets
             # (AttributeError if one of the datasets has no such getall_)
             for dataset in self.datasets:
